@@ -378,6 +378,19 @@ func vhTimeParse(layout, value string) (time.Time, error) {
 	return time.Time{}, errors.New("vh: cannot parse time")
 }
 
+// stub: time.ParseInLocation — the same oracle; whether the value was read as UTC is recorded
+var vhParsedAsUTC = true
+
+func vhTimeParseInLocation(layout, value string, loc *time.Location) (time.Time, error) {
+	if !vStubOn("time") {
+		return time.ParseInLocation(layout, value, loc)
+	}
+	if loc != time.UTC {
+		vhParsedAsUTC = false
+	}
+	return vhTimeParse(layout, value)
+}
+
 var vhRemaining int
 
 func vhTimeUntil(t time.Time) time.Duration {
@@ -391,13 +404,13 @@ func vhTimeUntil(t time.Time) time.Duration {
 // vh_C06_expiry: VerifyLayoutExpiration accepts iff the expiry parses with the
 // UTC schema and does not lie in the past.
 func vh_C06_expiry(a []int) {
-	vhParseCalls, vhUntilCalls = 0, 0
+	vhParseCalls, vhUntilCalls, vhParsedAsUTC = 0, 0, true
 	vhRemaining = vInt("remaining-ns", -1000000000000, 1000000000000)
 	exp := vPick("expires", "2030-01-01T00:00:00Z", "2000-01-01T00:00:00Z", "2030-01-01T00:00:00+01:00", "", "garbage")
 	err := VerifyLayoutExpiration(Layout{Expires: exp})
 	vObserve("expiry", err == nil)
 	parsed := vUFBool("parses", "2006-01-02T15:04:05Z", exp)
-	vAssert("C06.parsed-with-utc-schema", vhParseCalls == 1 && vhParseLayout == "2006-01-02T15:04:05Z" && vhParseValue == exp)
+	vAssert("C06.parsed-with-utc-schema", vhParseCalls == 1 && vhParseLayout == "2006-01-02T15:04:05Z" && vhParseValue == exp && vhParsedAsUTC)
 	vAssert("C06.accept-iff-parsed-and-not-past", vIff(err == nil, vAnd(parsed, vLeInt(0, vhRemaining))))
 	vReach("C06.end")
 }
